@@ -30,16 +30,17 @@ type params struct {
 }
 
 func Run(k *report.Check) {
-	k.Rule = "single database tier: every history up to the depth over {write burst (rotates and flushes), Checkpoint, retention update (keep newest / keep two newest), reopen from a retained handle in the same process (old database object dropped or kept alive; same or new directory), forced garbage collection (runtime.GC + cleanup barrier; two rounds at the end of every execution)}; after every action every file named by a retained checkpoint's document must exist, a scratch restore of every retained handle on a copy of the files must reproduce the captured map, the live database must scan and point-read correctly (touching every table of its level set), and WAL files referenced only by dropped checkpoints must be gone after the retention update - but not earlier: after every single storage step of a retention update (the states a crash or a failed save leaves behind) the checkpoints file stored at that moment must list only checkpoints whose write-ahead logs still exist. Ownership part (scheduler): the real OperatorPartition.ExclusivelyOwnsTable with 1-3 neighbours, every combination of {does not need it, needs it, errors, errors late, answers late, no overlap} and every interleaving of its goroutines within the delay bound: (true, nil) only if every overlapping neighbour answered that it does not need the table. Neighbour tier: a table shared by operators after a rescale with every combination of neighbour answers {needs it, does not, error, hangs}. non-trivial = distinct (file set, retained ids, live databases) states reached by an execution in which a cleanup deleted at least one file"
+	k.Rule = "single database tier: every history up to the depth over {write burst (rotates and flushes), Checkpoint, retention update (keep newest / keep two newest), reopen from a retained handle in the same process (old database object dropped or kept alive; same or new directory), forced garbage collection (runtime.GC + cleanup barrier; two rounds at the end of every execution)}; after every action every file named by a retained checkpoint's document must exist, a scratch restore of every retained handle on a copy of the files must reproduce the captured map, the live database must scan and point-read correctly (touching every table of its level set), and WAL files referenced only by dropped checkpoints must be gone after the retention update - but not earlier: after every single storage step of a retention update (the states a crash or a failed save leaves behind) the checkpoints file stored at that moment must list only checkpoints whose write-ahead logs still exist. Ownership part (scheduler): the real OperatorPartition.ExclusivelyOwnsTable with 1-3 neighbours, every combination of {does not need it, needs it, errors, errors late, answers late, no overlap} and every interleaving of its goroutines within the delay bound: (true, nil) only if every overlapping neighbour answered that it does not need the table. A real Operator that has not been deployed (its database is not open) never answers NeedsTable with a clean 'not needed'. Neighbour tier: a table shared by operators after a rescale with every combination of neighbour answers {needs it, does not, error, hangs}. non-trivial = distinct (file set, retained ids, live databases) states reached by an execution in which a cleanup deleted at least one file"
 	k.Assumptions = []string{"a forced runtime.GC plus a sentinel cleanup barrier runs every cleanup of unreachable tables: reported deletions are real; completeness depends on the collector finding the garbage", "MemoryFilesystem"}
 	k.Budget(200, 1500)
-	k.Parts(k.Pick(5, 6))
+	k.Parts(k.Pick(6, 7))
 	cfgs := []dkvh.Options{{Mem: 40, Table: 64, L0: 2, Smallest: 4500, Ampl: 50}}
 	if k.Thorough() {
 		cfgs = append(cfgs, dkvh.Options{Mem: 40, Table: 64, L0: 1, Smallest: 4500, Ampl: 50}, dkvh.Options{Mem: 40, Table: 1, L0: 3, Smallest: 9000, Ampl: 200})
 	}
 	ob := k.Pick(3, 6)
 	k.ExploreSched(fmt.Sprintf("sched/exclusive-ownership/n<=3,delays<=%d", ob), mc.Config{Bound: ob, Deadline: k.Within(0.2)}, 3, ownershipBody)
+	k.Explore("operator-asked-before-its-database-is-open", mc.Config{}, nil, notReadyBody)
 	p := params{depth: k.Pick(5, 6), cfgs: cfgs}
 	if os.Getenv("C09_SKIP_SINGLE") == "" { // debugging aid
 		k.ExploreProc(fmt.Sprintf("single-db/d=%d", p.depth), mc.Config{Deadline: k.Within(0.45)}, p, single)
